@@ -20,6 +20,7 @@ import KafkaVerif.Lemmas.WriterCloseMeasure
 import KafkaVerif.Lemmas.GroupCloseProgress
 import KafkaVerif.Lemmas.FetcherDeadlines
 import KafkaVerif.Lemmas.GroupDeadlines
+import KafkaVerif.Lemmas.ReaderCloseSilent
 
 namespace KV.C09
 open KV.WriterClose
@@ -958,5 +959,25 @@ theorem group_run_blocked_without_deadline (c : Group.Cfg) (s : Group.St)
     (hp : (∃ lv, s.pc = .coord 1 lv) ∨ s.pc = .joining ∨ s.pc = .syncing ∨ ∃ a, s.pc = .leaveCall a)
     (e : Group.Ev) (he : e.runLoop = true) : Group.stepSilentG false c s e = none :=
   GroupClose.run_blocked_without_deadline c s hp e he
+
+end KV.C09
+
+/-! ## Reader.Close as a system against a silent broker and coordinator (Lemmas/ReaderCloseSilent.lean) -/
+namespace KV.C09
+
+/-- **reader_system_close_progress_for_source** — `reader_system_close_progress_full` when broker and coordinator have
+stopped answering (`stepSilentSys`: a network operation returns only through its deadline, and then as a failure), for
+the code as it is: the fetchers' deadline facts and the coordinator's are the ones extracted from reader.go /
+consumergroup.go.  While Reader.Close waits after the mark some component can always move — a cancelled fetcher leaves
+its blocked request at the deadline, `run` leaves its coordinator request at the deadline, and so do the generation's
+functions.  C09-m8 (and any request that loses its deadline) breaks this theorem. -/
+theorem reader_system_close_progress_for_source (c : Group.Cfg) (s : ReaderCloseSystem.State)
+    (hi : ReaderCloseSystem.Inv c s) (hm : s.close = 2) :
+    ∃ e, (ReaderCloseSystem.internal e = true ∨ (∃ gi acc, e = .group (.gStart gi acc)) ∨
+          ∃ ge, e = .group ge ∧ GroupClose.genEvS ge = true) ∧
+      (GroupClose.stepSilentSys sourceNet Gen.CloseFacts.coordinatorCallsHaveDeadline c s e).isSome = true := by
+  have h : Gen.CloseFacts.coordinatorCallsHaveDeadline = true := by decide
+  rw [h]
+  exact GroupClose.system_progress_silent sourceNet (by decide) (by decide) c s hi hm
 
 end KV.C09
